@@ -15,7 +15,7 @@ EXPLANATION = (
     "created only under `window full` and `splitter set contains the k-mer`; (S4) a contig shorter than k and "
     "the no-segment case return exactly one segment holding the whole contig with both k-mers missing, and the "
     "final segment is contig[start..]; (S5) = C20-K3 (window restart on non-ACGT); (S6) both sibling bodies "
-    "satisfy the same clauses.  That concatenation reproduces the contig is arithmetic and is not decided.")
+    "satisfy the same clauses; (S7) the scan position is the absolute index into the contig (enumerate directly over the contig).  That concatenation reproduces the contig is arithmetic and is not decided.")
 UNDECIDED = "that dropping k bases and concatenating reproduces the contig (position arithmetic over all inputs); segment length bounds"
 
 MISSING = 18446744073709551615
